@@ -155,10 +155,12 @@ def is_option_like(node):
 OPTION_KEYS = {"Some", "None", "Ok", "Err", "_"}
 ERR = ("err",)
 NONE = ("ctor", "None", ())
+LOOP_EXITS = (("continue",), ("break",))
 
 
-def mk_case(scrut, arms):
-    """arms: list of (key, term, binds_something)"""
+def mk_case(scrut, arms, skips_transparent=False):
+    """arms: list of (key, term, binds_something).
+    skips_transparent: arms that leave the iteration (`None => continue`) are treated like error arms (see Norm.skips_transparent)."""
     d = {}
     for k, t, _ in arms:
         d.setdefault(k, t)
@@ -171,7 +173,9 @@ def mk_case(scrut, arms):
     if set(d) <= OPTION_KEYS:
         # error propagation (`?`, `let .. else { bail }`, `match { Ok(v) => v, Err(e) => return Err(e) }`, `.context(..)?`):
         # the error arms of an Option/Result scrutinee are transparent, like `?`
-        live = {k: v for k, v in d.items() if v != ERR}
+        # so are arms that leave the iteration (`None => continue`): the expression yields a value only on the other arm;
+        # whether skipping is allowed there is a question about the loop (path conditions), not about the value
+        live = {k: v for k, v in d.items() if v != ERR and not (skips_transparent and v in LOOP_EXITS)}
         if len(live) == 1 and len(d) > 1:
             (k, v), = live.items()
             if k in ("Some", "Ok"):
@@ -308,8 +312,12 @@ def calls_in(t):
 
 # ------------------------------------------------------------------------------------------- the normaliser
 class Norm:
-    def __init__(self, body, param_names=None, locals_env=None):
-        """body: a body record of the facts. param_names: spec names by position (default: the declared names)."""
+    def __init__(self, body, param_names=None, locals_env=None, skips_transparent=False):
+        """body: a body record of the facts. param_names: spec names by position (default: the declared names).
+        skips_transparent: `match x { Some(v) => v, None => continue }` has the value x (like `x?`); only for rules that account
+        for every way to leave the loop themselves (path conditions + exits, e.g. R06.8) -- otherwise the skip stays visible as
+        orelse(x, continue())."""
+        self.skips_transparent = skips_transparent
         self.body = body
         self.root = body["body"]
         self.params = {}
@@ -599,7 +607,7 @@ class Norm:
                     arms.append(("_", T(n["else"]), False))
                 else:
                     arms.append(("_", ("unit",), False))
-                return mk_case(scrut, arms) if key != "_" else T(n["then"])
+                return mk_case(scrut, arms, self.skips_transparent) if key != "_" else T(n["then"])
             return mk_if(T(n["cond"]), T(n["then"]), T(n["else"]) if "else" in n else ("unit",))
         if k == "letexpr":
             return ("call", "<let>", (T(n["init"]),))
@@ -613,7 +621,7 @@ class Norm:
                 arms.append((key, T(a["body"]), binds))
             if len(arms) == 1 and arms[0][0] == "_":
                 return arms[0][1]
-            return mk_case(scrut, arms)
+            return mk_case(scrut, arms, self.skips_transparent)
         if k == "bin":
             return mk_bin(n["op"], T(n["l"]), T(n["r"]))
         if k == "ret":
@@ -691,14 +699,14 @@ class Norm:
             el = self.value(e0["else"], depth + 1) if "else" in e0 else ("unit",)
             if c.get("k") == "letexpr":
                 key, binds = self._pat_key(c["pat"])
-                return mk_case(self.term(c["init"]), [(key, th, binds), ("_", el, False)])
+                return mk_case(self.term(c["init"]), [(key, th, binds), ("_", el, False)], self.skips_transparent)
             return mk_if(self.term(e0["cond"]), th, el)
         if k == "match" and self._has_ret(e0):
             arms = []
             for a in e0["arms"]:
                 key, binds = self._pat_key(a["pat"])
                 arms.append((key, self.value(a["body"], depth + 1), binds))
-            return mk_case(self.term(e0["scrut"]), arms)
+            return mk_case(self.term(e0["scrut"]), arms, self.skips_transparent)
         return self.term(e0, depth + 1)
 
     def fold(self, stmts, tail, cont, depth=0):
@@ -722,7 +730,7 @@ class Norm:
             return ERR
         if k == "let" and "els" in s0:
             key, binds = self._pat_key(s0["pat"])
-            return mk_case(self.term(s0["init"]), [(key, nxt(), binds), ("_", self.value(s0["els"], depth + 1), False)])
+            return mk_case(self.term(s0["init"]), [(key, nxt(), binds), ("_", self.value(s0["els"], depth + 1), False)], self.skips_transparent)
         if k == "let":
             h = self._hoistable(s0)
             if h:
@@ -735,7 +743,7 @@ class Norm:
                 key, binds = self._pat_key(live[0]["pat"])
                 self.bind_env(s0["pat"], self.term(live[0]["body"]))
                 arms.append((key, nxt(), binds))
-                return mk_case(scrut, arms)
+                return mk_case(scrut, arms, self.skips_transparent)
             return nxt()
         if k == "if" and (self._has_ret(s0) or self._is_guard(s0)):
             c = H.peel(s0["cond"], refs=False)
@@ -744,7 +752,7 @@ class Norm:
             el = blk(H.peel(s0["else"], refs=False, blocks=False)) if "else" in s0 else nxt()
             if c.get("k") == "letexpr":
                 key, binds = self._pat_key(c["pat"])
-                return mk_case(self.term(c["init"]), [(key, th, binds), ("_", el, False)])
+                return mk_case(self.term(c["init"]), [(key, th, binds), ("_", el, False)], self.skips_transparent)
             return mk_if(self.term(s0["cond"]), th, el)
         if k == "match" and self._has_ret(s0):
             arms = []
@@ -753,7 +761,7 @@ class Norm:
                 b = H.peel(a["body"], refs=False, blocks=False)
                 t = self.fold(b["stmts"], b.get("tail"), nxt, depth + 1) if b.get("k") == "block" else self.stmt(b, nxt, depth + 1)
                 arms.append((key, t, binds))
-            return mk_case(self.term(s0["scrut"]), arms)
+            return mk_case(self.term(s0["scrut"]), arms, self.skips_transparent)
         if k == "block" and self._has_ret(s0):
             return self.fold(s0["stmts"], s0.get("tail"), nxt, depth + 1)
         if k == "for" and self._has_ret(s0):
@@ -788,7 +796,7 @@ class Norm:
             else:
                 first = ("call", "find", (X, ("lam", cond)))
                 Rv = subst(R, mk_elem(X), first)
-        return mk_case(first, [("Some", Rv, True), ("_", nxt(), False)])
+        return mk_case(first, [("Some", Rv, True), ("_", nxt(), False)], self.skips_transparent)
 
     def _pat_key(self, p):
         """(key, binds?) of a pattern for `case`: variant name, literal, tuple of keys, or `_`."""
